@@ -25,6 +25,7 @@ func TestMain(m *testing.M) {
 	evid.Init(prop, "exploration",
 		"(i) generated programs printed under random admissible layouts (multi-byte characters, CRLF, comments): every position field of the parsed tree must equal the printer's byte offset of that token and its Ln/Col the independent computation; (ii) generated programs with one injected load-time fault (unknown function, wrong argument count/kind, break/continue outside a loop) or run-time fault (ill-typed operation, index out of range, zero divisor, zero slice step, non-iterable, failing builtin, non-string map key) at a known statement, nested in branches/loops/call arguments: the error names the script, 0<=Pos<len(src), every chain position lies inside the faulty statement's span, Ln/Col consistent; (iii) exhaustively all texts of length<=7 over {a, LF, é} x all offsets: PosCache.LnCol, token.LnCol and the independent computation agree; (iv) error chains of 1..4 positions: Error() rendering, JSON round trip, Copy().ChainAppend leaves the original untouched. Non-trivial: token not on line 1 or preceded by a multi-byte rune on its line; fault in a nested statement; distinct by (node kind, line>1, multibyte) resp. (fault kind, wrapper, nesting).",
 		"line = 1 + number of LF bytes before the offset; column = bytes since the line start + 1 (the property's definition)")
+	impl.DisturbEvery = 3 // every third parse/load is preceded by a parse of an unrelated malformed text
 	code := m.Run()
 	evid.Flush(code == 0)
 	os.Exit(code)
